@@ -25,19 +25,32 @@ def one(n):
     json.dump(m, open(os.path.join(S, n, "meta.json"), "w"), indent=1)
     return n, m, p.stdout[-300:]
 
+summary_only = "--summary-only" in sys.argv
+if not summary_only:
+    with cf.ThreadPoolExecutor(max_workers=6) as ex:
+        for n, m, out in ex.map(one, names):
+            own = m.get("checks", {}).get(n.split("-")[0], {})
+            others = {k: v["caught"] for k, v in m.get("checks", {}).items() if k != n.split("-")[0]}
+            print(n, "applies" if m.get("patch_applies") else "NO-APPLY", "demo", m.get("demo_unchanged_exit"), m.get("demo_patched_exit"), "tests", m.get("stable_pass_still_passing"),
+                  "CAUGHT" if own.get("caught") else ("CAUGHT-BY-" + "+".join(k for k, v in others.items() if v) if any(others.values()) else f"MISSED(exit {own.get('exit')})"), others, flush=True)
+# the table always covers every kept change (from the meta.json each confirmation leaves behind)
 rows = []
-with cf.ThreadPoolExecutor(max_workers=6) as ex:
-    for n, m, out in ex.map(one, names):
-        own = m.get("checks", {}).get(n.split("-")[0], {})
-        others = {k: v["caught"] for k, v in m.get("checks", {}).items() if k != n.split("-")[0]}
-        print(n, "applies" if m.get("patch_applies") else "NO-APPLY", "demo", m.get("demo_unchanged_exit"), m.get("demo_patched_exit"), "tests", m.get("stable_pass_still_passing"),
-              "CAUGHT" if own.get("caught") else f"MISSED(exit {own.get('exit')})", others)
-        rows.append((n, m, own, others))
+for n in sorted(d for d in os.listdir(S) if os.path.isdir(os.path.join(S, d)) and not d.startswith("_")):
+    mp = os.path.join(S, n, "meta.json")
+    if not os.path.exists(mp):
+        continue
+    m = json.load(open(mp))
+    own = m.get("checks", {}).get(n.split("-")[0], {})
+    others = {k: v["caught"] for k, v in m.get("checks", {}).items() if k != n.split("-")[0]}
+    rows.append((n, m, own, others))
 with open(os.path.join(S, "SUMMARY.md"), "w") as fh:
     fh.write("# Seeded changes (independent sub-agents; confirmed in scratch worktrees; never committed to /repo)\n\n")
-    fh.write("| change | property | what was changed | needs to manifest | demo unchanged/patched | stable tests | own check (quick) | other checks |\n|---|---|---|---|---|---|---|---|\n")
-    for n, m, own, others in sorted(rows):
+    fh.write(f"{len(rows)} changes; caught by the check of their own property: {sum(1 for r in rows if r[2].get('caught'))}; "
+             f"by another property's check only: {sum(1 for r in rows if not r[2].get('caught') and any(r[3].values()))}; "
+             f"not caught: {sum(1 for r in rows if not r[2].get('caught') and not any(r[3].values()))}.\n\n")
+    fh.write("| change | property | what was changed | needs to manifest | demo unchanged/patched | stable tests | own check (tier) | other checks |\n|---|---|---|---|---|---|---|---|\n")
+    for n, m, own, others in rows:
         kinds = "; ".join(k.split("violation kind: ")[-1].strip() for k in own.get("kinds", [])[:2])
         fh.write(f"| {n} | {m['property']} | {m.get('what','')} | {m.get('needs_to_manifest','')} | {m.get('demo_unchanged_exit')}/{m.get('demo_patched_exit')} | "
-                 f"{m.get('stable_pass_still_passing')}/87 | {'caught: ' + kinds if own.get('caught') else 'MISSED'} | {', '.join(f'{k}: ' + ('caught' if v else 'not caught') for k, v in others.items())} |\n")
-print("wrote", os.path.join(S, "SUMMARY.md"))
+                 f"{m.get('stable_pass_still_passing')}/87 | {TIER.get(n, 'quick')}: {'caught: ' + kinds if own.get('caught') else 'MISSED'} | {', '.join(f'{k}: ' + ('caught' if v else 'not caught') for k, v in others.items())} |\n")
+print("wrote", os.path.join(S, "SUMMARY.md"), len(rows), "rows")
